@@ -122,7 +122,23 @@ func (mt *MemTopics) Retained(topic []byte, msgs *[]*message.PublishMessage) err
 	mt.rmu.RLock()
 	defer mt.rmu.RUnlock()
 
-	return mt.rroot.rmatch(topic, msgs)
+	n := len(*msgs)
+	if err := mt.rroot.rmatch(topic, msgs); err != nil {
+		return err
+	}
+
+	// Hand out copies: Retain rewrites the stored messages in place, so a
+	// caller holding the stored message after the lock is released would see
+	// (and send) whatever was retained later, possibly half-written.
+	for i := n; i < len(*msgs); i++ {
+		c, err := (*msgs)[i].Clone()
+		if err != nil {
+			return err
+		}
+		(*msgs)[i] = c
+	}
+
+	return nil
 }
 
 // Close implements Provider.
